@@ -19,6 +19,10 @@ func (core *JApiCore) buildCatalog() *jerr.JApiError {
 
 	if len(core.directivesWithPastes) == 0 {
 		// Nothing but comments and macro definitions: the mandatory JSIGHT directive is missing.
+		if f := core.scanner.File(); f.Content().Len() != 0 {
+			return jerr.NewJApiError(jerr.DirectiveJSIGHTShouldBeTheFirst, f, 0)
+		}
+		// There is no position inside an empty file.
 		return &jerr.JApiError{
 			Msg:      jerr.DirectiveJSIGHTShouldBeTheFirst,
 			Location: jerr.Location{File: core.scanner.File()},
